@@ -591,6 +591,7 @@ package pfcp
 //@   ensures [id]     s.LocalID != 0 && (forall id uint64 :: id == s.LocalID ==> !old(live(n.local, id))) && live(n.local, s.LocalID) && n.local.sess[s.LocalID-1] == s
 //@   ensures [mine]   forall id uint64 :: id in n.sess <==> (id in old(n.sess) || id == s.LocalID)
 //@   ensures [others] forall id uint64 :: id != s.LocalID ==> (live(n.local, id) == old(live(n.local, id))) && (old(live(n.local, id)) ==> n.local.sess[id-1] == old(n.local.sess[id-1]))
+//@   ensures [slots]  forall i int :: 0 <= i && i < len(n.local.sess) ==> n.local.sess[i] == s || (i < old(len(n.local.sess)) && n.local.sess[i] == old(n.local.sess[i]))
 //@   ensures [ok]     sessOK(s) && ownsMaps(s)
 //@   ensures [frameok] forall t *Sess :: old(allocated(t)) && old(sessOK(t)) ==> sessOK(t)
 //@   ensures [wf]     lnodeWF(n.local) && dpLive(n.local)
@@ -600,7 +601,7 @@ package pfcp
 //@   reveal dpLive
 //@   reveal lnodeWF
 //@   reveal nodeInv allSessOK
-//@   uses ok frameok for node hiding sessOK
+//@   uses slots ok frameok for node hiding sessOK
 //@   serves C04 C05 C01 C13
 
 //@ func (n *RemoteNode) DeleteSess(lSeid uint64) (usars []report.USAReport)
@@ -820,7 +821,22 @@ package pfcp
 //@ opaque pred nodesWF(s *PfcpServer) = forall id string :: id in s.rnodes ==> nodeWF(s.rnodes[id]) && s.rnodes[id].local == s.lnode && s.rnodes[id].ID == id
 //@ opaque pred linked(s *PfcpServer) = forall i int :: 0 <= i && i < len(s.lnode.sess) && s.lnode.sess[i] != nil ==>
 //@        nodeWF(s.lnode.sess[i].rnode) && s.lnode.sess[i].rnode.local == s.lnode && (uint64(i) + 1) in s.lnode.sess[i].rnode.sess
-//@ pred srvInv(s *PfcpServer) = srvWF(s) && nodeInv(s.lnode) && nodesWF(s) && linked(s)
+// registered(s): the node every live session hangs off is the one registered under that node's id, so that
+// re-association of a node id reaches exactly the sessions established under it (C05).
+//@ opaque pred registered(s *PfcpServer) = forall i int :: 0 <= i && i < len(s.lnode.sess) && s.lnode.sess[i] != nil ==>
+//@        s.lnode.sess[i].rnode.ID in s.rnodes && s.rnodes[s.lnode.sess[i].rnode.ID] == s.lnode.sess[i].rnode
+//@ pred srvInv(s *PfcpServer) = srvWF(s) && nodeInv(s.lnode) && nodesWF(s) && linked(s) && registered(s)
+
+// UpdateNodeID re-keys a node.  [reg] is what C05 needs from it: no other node loses its registration.
+//@ func (s *PfcpServer) UpdateNodeID(n *RemoteNode, newId string)
+//@   requires s != nil && s.rnodes != nil && n != nil && nodesWF(s) && linked(s) && registered(s) && n.ID in s.rnodes && s.rnodes[n.ID] == n
+//@   ensures [nodes]  nodesWF(s)
+//@   ensures [linked] linked(s)
+//@   ensures [reg]    registered(s)
+//@   ensures [moved]  n.ID == newId && newId in s.rnodes && s.rnodes[newId] == n
+//@   modifies s.rnodes[_], n.ID, n.log
+//@   reveal nodesWF linked registered
+//@   serves C05 C07
 
 // A-HDRWF: a parsed request has a header (go-pfcp's parser always sets it)
 //@ func (s *PfcpServer) handleHeartbeatRequest(req *message.HeartbeatRequest, addr net.Addr)
@@ -856,7 +872,7 @@ package pfcp
 //@   reveal srvWF
 //@   reveal nodesWF
 //@   reveal linked
-//@   reveal nodeInv lnodeWF allSessOK dpLive
+//@   reveal nodeInv lnodeWF allSessOK dpLive registered
 //@   flag perreturn
 //@   cases known: val(req.NodeID.NodeID()) in s.rnodes | unknown: !(val(req.NodeID.NodeID()) in s.rnodes)
 //@   serves C01 C04 C05 C08 C07
@@ -875,7 +891,7 @@ package pfcp
 //@   ensures [others] forall id uint64 :: id != hdrSEID(req.Header) ==> (live(s.lnode, id) == old(live(s.lnode, id))) && (old(live(s.lnode, id)) ==> s.lnode.sess[id-1] == old(s.lnode.sess[id-1]))
 //@   ensures [isol]   forall k RuleKey :: k.seid != hdrSEID(req.Header) ==> ((k in DP) == (k in old(DP)))
 //@   modifies *
-//@   reveal nodeInv allSessOK dpLive linked lnodeWF
+//@   reveal nodeInv allSessOK dpLive linked lnodeWF registered
 //@   flag perreturn
 //@   serves C01 C04 C05 C08 C11 C12 C07
 //@   loop range(usars):
@@ -914,7 +930,7 @@ package pfcp
 //@   ensures [clean]   forall k RuleKey :: old(live(s.lnode, k.seid)) && !live(s.lnode, k.seid) ==> !(k in DP)
 //@   ensures [isol]    forall k RuleKey :: live(s.lnode, k.seid) ==> ((k in DP) == (k in old(DP)))
 //@   modifies *
-//@   reveal linked
+//@   reveal linked registered
 //@   flag perreturn
 //@   serves C01 C04 C05 C07
 //@   at call RemoteSess:
@@ -943,7 +959,7 @@ package pfcp
 //@   ensures [one]    forall a uint64; b uint64 :: live(s.lnode, a) && !old(live(s.lnode, a)) && live(s.lnode, b) && !old(live(s.lnode, b)) ==> a == b
 //@   ensures [isol]   forall k RuleKey :: old(live(s.lnode, k.seid)) ==> ((k in DP) == (k in old(DP))) && ((k in CREATED) == (k in old(CREATED)))
 //@   modifies *
-//@   reveal linked nodesWF
+//@   reveal linked nodesWF registered
 //@   flag perreturn
 //@   serves C01 C04 C05 C08 C07
 //@   loop range(req.CreateFAR):
@@ -978,3 +994,114 @@ package pfcp
 //@   at call sendRspTo:
 //@     assert [to]    arg1 == addr && arg0 == iface(rsp)
 //@     assert [addressable] live(s.lnode, sess.LocalID) && s.lnode.sess[sess.LocalID-1] == sess && !old(live(s.lnode, sess.LocalID))
+
+// Session Modification.  A-PARSED as for establishment.  Every rule loop carries the whole-node invariant as one
+// opaque fact ([node] postconditions of the Sess methods) and the isolation of every other SEID's rules.
+//@ pred modReqWF(req *message.SessionModificationRequest) =
+//@      (forall i int :: 0 <= i && i < len(req.CreateFAR) ==> req.CreateFAR[i] != nil) &&
+//@      (forall i int :: 0 <= i && i < len(req.CreateQER) ==> req.CreateQER[i] != nil) &&
+//@      (forall i int :: 0 <= i && i < len(req.CreateURR) ==> ieWF(req.CreateURR[i])) &&
+//@      (forall i int :: 0 <= i && i < len(req.CreatePDR) ==> req.CreatePDR[i] != nil) &&
+//@      (forall i int :: 0 <= i && i < len(req.RemoveFAR) ==> req.RemoveFAR[i] != nil) &&
+//@      (forall i int :: 0 <= i && i < len(req.RemoveQER) ==> req.RemoveQER[i] != nil) &&
+//@      (forall i int :: 0 <= i && i < len(req.RemoveURR) ==> req.RemoveURR[i] != nil) &&
+//@      (forall i int :: 0 <= i && i < len(req.RemovePDR) ==> req.RemovePDR[i] != nil) &&
+//@      (forall i int :: 0 <= i && i < len(req.UpdateFAR) ==> req.UpdateFAR[i] != nil) &&
+//@      (forall i int :: 0 <= i && i < len(req.UpdateQER) ==> req.UpdateQER[i] != nil) &&
+//@      (forall i int :: 0 <= i && i < len(req.UpdateURR) ==> ieWF(req.UpdateURR[i])) &&
+//@      (forall i int :: 0 <= i && i < len(req.UpdatePDR) ==> req.UpdatePDR[i] != nil) &&
+//@      (forall i int :: 0 <= i && i < len(req.QueryURR) ==> req.QueryURR[i] != nil)
+
+//@ func (s *PfcpServer) handleSessionModificationRequest(req *message.SessionModificationRequest, addr net.Addr)
+//@   requires s != nil && srvInv(s) && req != nil && req.Header != nil && addr != nil && modReqWF(req)
+//@   ensures [inv]    srvInv(s)
+//@   ensures [nf]     !old(live(s.lnode, hdrSEID(req.Header))) ==> DP == old(DP) && CREATED == old(CREATED)
+//@   ensures [slots]  forall id uint64 :: (live(s.lnode, id) == old(live(s.lnode, id))) && (old(live(s.lnode, id)) ==> s.lnode.sess[id-1] == old(s.lnode.sess[id-1]))
+//@   ensures [isol]   forall k RuleKey :: k.seid != hdrSEID(req.Header) ==> ((k in DP) == (k in old(DP))) && ((k in CREATED) == (k in old(CREATED)))
+//@   modifies *
+//@   reveal linked nodesWF
+//@   flag perreturn
+//@   serves C01 C04 C05 C08 C11 C12 C07
+//@   loop range(req.CreateFAR):
+//@     modifies sess.FARIDs[_], DP, CREATED
+//@     invariant [ok]   nodeInv(s.lnode) && sessOK(sess)
+//@     invariant [isol] forall k RuleKey :: k.seid != sess.LocalID ==> ((k in DP) == (k in old(DP))) && ((k in CREATED) == (k in old(CREATED)))
+//@   loop range(req.CreateQER):
+//@     modifies sess.QERIDs[_], DP, CREATED
+//@     invariant [ok]   nodeInv(s.lnode) && sessOK(sess)
+//@     invariant [isol] forall k RuleKey :: k.seid != sess.LocalID ==> ((k in DP) == (k in old(DP))) && ((k in CREATED) == (k in old(CREATED)))
+//@   loop range(req.CreateURR):
+//@     modifies sess.URRIDs[_], DP, CREATED
+//@     invariant [ok]   nodeInv(s.lnode) && sessOK(sess)
+//@     invariant [isol] forall k RuleKey :: k.seid != sess.LocalID ==> ((k in DP) == (k in old(DP))) && ((k in CREATED) == (k in old(CREATED)))
+//@   loop range(req.CreatePDR):
+//@     modifies sess.PDRIDs[_], sess.URRIDs[_].refPdrNum, DP, CREATED
+//@     invariant [ok]   nodeInv(s.lnode) && sessOK(sess)
+//@     invariant [isol] forall k RuleKey :: k.seid != sess.LocalID ==> ((k in DP) == (k in old(DP))) && ((k in CREATED) == (k in old(CREATED)))
+//@   loop range(req.RemoveFAR):
+//@     modifies sess.FARIDs[_], DP
+//@     invariant [ok]   nodeInv(s.lnode) && sessOK(sess)
+//@     invariant [isol] forall k RuleKey :: k.seid != sess.LocalID ==> ((k in DP) == (k in old(DP))) && ((k in CREATED) == (k in old(CREATED)))
+//@   loop range(req.RemoveQER):
+//@     modifies sess.QERIDs[_], DP
+//@     invariant [ok]   nodeInv(s.lnode) && sessOK(sess)
+//@     invariant [isol] forall k RuleKey :: k.seid != sess.LocalID ==> ((k in DP) == (k in old(DP))) && ((k in CREATED) == (k in old(CREATED)))
+//@   loop range(req.RemoveURR):
+//@     modifies sess.URRIDs[_].removed, DP
+//@     invariant [ok]   nodeInv(s.lnode) && sessOK(sess)
+//@     invariant [isol] forall k RuleKey :: k.seid != sess.LocalID ==> ((k in DP) == (k in old(DP))) && ((k in CREATED) == (k in old(CREATED)))
+//@   loop range(req.RemovePDR):
+//@     modifies sess.PDRIDs[_], sess.URRIDs[_].refPdrNum, DP
+//@     invariant [ok]   nodeInv(s.lnode) && sessOK(sess)
+//@     invariant [isol] forall k RuleKey :: k.seid != sess.LocalID ==> ((k in DP) == (k in old(DP))) && ((k in CREATED) == (k in old(CREATED)))
+//@   loop range(req.UpdateFAR):
+//@     modifies nothing
+//@     invariant [ok]   nodeInv(s.lnode) && sessOK(sess)
+//@     invariant [isol] forall k RuleKey :: k.seid != sess.LocalID ==> ((k in DP) == (k in old(DP))) && ((k in CREATED) == (k in old(CREATED)))
+//@   loop range(req.UpdateQER):
+//@     modifies nothing
+//@     invariant [ok]   nodeInv(s.lnode) && sessOK(sess)
+//@     invariant [isol] forall k RuleKey :: k.seid != sess.LocalID ==> ((k in DP) == (k in old(DP))) && ((k in CREATED) == (k in old(CREATED)))
+//@   loop range(req.UpdateURR):
+//@     modifies sess.URRIDs[_].DURAT, sess.URRIDs[_].VOLUM, sess.URRIDs[_].EVENT, sess.URRIDs[_].MBQE, sess.URRIDs[_].INAM, sess.URRIDs[_].RADI, sess.URRIDs[_].ISTM, sess.URRIDs[_].MNOP
+//@     invariant [ok]   nodeInv(s.lnode) && sessOK(sess)
+//@     invariant [isol] forall k RuleKey :: k.seid != sess.LocalID ==> ((k in DP) == (k in old(DP))) && ((k in CREATED) == (k in old(CREATED)))
+//@   loop range(req.UpdatePDR):
+//@     modifies sess.PDRIDs[_].RelatedURRIDs, sess.URRIDs[_].refPdrNum
+//@     invariant [ok]   nodeInv(s.lnode) && sessOK(sess)
+//@     invariant [isol] forall k RuleKey :: k.seid != sess.LocalID ==> ((k in DP) == (k in old(DP))) && ((k in CREATED) == (k in old(CREATED)))
+//@   loop range(req.QueryURR):
+//@     modifies nothing
+//@     invariant [ok]   nodeInv(s.lnode) && sessOK(sess)
+//@     invariant [isol] forall k RuleKey :: k.seid != sess.LocalID ==> ((k in DP) == (k in old(DP))) && ((k in CREATED) == (k in old(CREATED)))
+//@   loop range(usars):
+//@     modifies sess.URRIDs[_], whole(sess.URRIDs[_].SEQN), rsp.UsageReport, r.*
+//@     invariant [ok]   nodeInv(s.lnode) && sessOK(sess) && rsp != nil
+//@     invariant [isol] forall k RuleKey :: k.seid != sess.LocalID ==> ((k in DP) == (k in old(DP))) && ((k in CREATED) == (k in old(CREATED)))
+//@   at call Sess:
+//@     unfold nodeInv(s.lnode)
+//@   after call Sess:
+//@     unfold allSessOK(s.lnode)
+//@   at call UpdateNodeID:
+//@     unfold srvWF(s)
+//@     unfold registered(s)
+//@   at call NewSessionModificationResponse#1:
+//@     assert [nfseid]  arg2 == 0 && arg3 == req.Header.SequenceNumber
+//@     assert [nfcause] len(arg5) == 1 && arg5[0] == ie.NewCause(ie.CauseSessionContextNotFound)
+//@   at call NewSessionModificationResponse#2:
+//@     assert [seid]    arg2 == sess.RemoteID && arg3 == req.Header.SequenceNumber
+//@     assert [cause]   len(arg5) == 1 && arg5[0] == ie.NewCause(ie.CauseRequestAccepted)
+//@   at call sendRspTo:
+//@     assert [to] arg1 == addr && arg0 == iface(rsp)
+//@   at call URRSeq:
+//@     unfold sessOK(sess)
+//@     assert [known] ok
+//@   at call IEsWithinSessModRsp:
+//@     assert [seqn]  recv.URSEQN + 1 == sess.URRIDs[recv.URRID].SEQN
+//@   at call delete:
+//@     unfold nodeInv(s.lnode)
+//@     unfold allSessOK(s.lnode)
+//@   after call delete:
+//@     fold sessOK(sess)
+//@     fold allSessOK(s.lnode)
+//@     fold nodeInv(s.lnode)
